@@ -468,7 +468,10 @@ def r3(ctx, cfg, R="C07.R3"):
             pv = peel(val)
             if pv[0] == "agg" and pv[1].endswith("Option::Some"):
                 somes.append(peel(pv[2][0][1]))
-            elif pv[0] == "agg" and pv[1].endswith("Option::None") and any(c[0] == "variant_in" and c[2] == ("None",) and is_strip(c[1]) for e, c in conds):
+            elif (pv[0] == "agg" and pv[1].endswith("Option::None") or
+                  # `strip_prefix(..)?` inside the closure: the residual of a None is None
+                  pv[0] == "call" and pv[1].endswith("FromResidual::from_residual") and peel(pv[2][0])[0] == "err" and is_strip(peel(pv[2][0])[1])) and \
+                    any(c[0] == "variant_in" and c[2] in (("None",), ("Break",)) and is_strip(c[1]) for e, c in conds):
                 nones.append(pv)
             else:
                 others.append(pv)
@@ -478,7 +481,7 @@ def r3(ctx, cfg, R="C07.R3"):
             ok = tup[0] == "agg" and tup[1] == "tuple" and len(tup[2]) == 2
             if ok:
                 k, v = peel(tup[2][0][1]), peel(tup[2][1][1])
-                ok = k[0] == "some" and is_strip(k[1]) and v[0] == "field" and v[2] == "1" and peel(v[1])[0] == "bound"
+                ok = k[0] in ("some", "ok") and is_strip(k[1]) and v[0] == "field" and v[2] == "1" and peel(v[1])[0] == "bound"
         guarded = ok
     elif ok:
         g = clos[0]
@@ -680,16 +683,29 @@ def r4(ctx, cfg):
                                                     contains(x[2][0], lambda y: y[0] == "call" and y[1].endswith("len")))
             ok = byte(ret[2][0][1], 2) and byte(ret[2][1][1], 3)
         ctx.ob(R, key, "two-big-endian-length-bytes", ok, "encode_length returns %s" % fmt(ret)[:160], fn=f, sample="[be[2], be[3]] of len as u32")
-        # which bytes: constant indices 2 and 3 in this order
+        # which bytes: constant indices 2 and 3, in the order of the returned array's elements (each element traced back
+        # through plain moves - `let [_, _, high, low] = ..; [high, low]` - to the indexed read it comes from)
+        def index_of(op, site, depth=0):
+            if op.get("k") not in ("copy", "move") or depth > 6:
+                return None
+            pl = op["place"]
+            for e in pl["p"]:
+                if e["k"] == "index":
+                    o = peel(P.local(f, e["local"], site))
+                    return o[2] if o[0] == "const" else None
+                if e["k"] == "constindex":
+                    return e["offset"]
+            if pl["p"]:
+                return None
+            ds = [d for d in P.defs(f).get(pl["l"], []) if d[0] == "assign" and not d[3]["dst"]["p"]]
+            if len(ds) != 1 or ds[0][3]["rv"]["k"] != "use":
+                return None
+            return index_of(ds[0][3]["rv"]["op"], (ds[0][1], ds[0][2]), depth + 1)
         idxs = []
         for bid, i, st in f.stmts():
-            if st["k"] == "assign" and st["rv"]["k"] == "use" and st["rv"]["op"]["k"] in ("copy", "move"):
-                for e in st["rv"]["op"]["place"]["p"]:
-                    if e["k"] == "index":
-                        o = peel(P.local(f, e["local"], (bid, i)))
-                        idxs.append(o[2] if o[0] == "const" else None)
-                    elif e["k"] == "constindex":
-                        idxs.append(e["offset"])
+            if st["k"] == "assign" and st["dst"]["l"] == (_ret_local(f) if _ret_local(f) is not None else 0) and not st["dst"]["p"] and \
+                    st["rv"]["k"] == "aggregate" and st["rv"]["agg"] == "array":
+                idxs = [index_of(o, (bid, i)) for o in st["rv"]["ops"]]
         ctx.ob(R, key, "low-two-bytes-in-order", idxs == [2, 3], "indices used: %s" % idxs, fn=f, sample="[2, 3]")
 
 
